@@ -297,6 +297,13 @@ def run(chk: core.Check):
     for i in range(30 if quick else 300):
         cfg, mode = gen_cfg(r, i)
         run_cfg(chk, cfg, mode, lines, keep, all_faults=True)
+    # schedules decided by the minimum-step floor at EVERY step: the accumulated multiples of min_step stop one ulp short of 1 (ten additions
+    # of 0.1 give 0.9999999999999999), the uninterrupted run then makes one more iteration to exactly 1 - and so must a run resumed from
+    # the checkpoint taken just before it
+    for j, ms in enumerate((0.1, 1 / 6, 1 / 7) if quick else (0.1, 1 / 6, 1 / 7, 1 / 13, 0.05, 1 / 3)):
+        cfg = {"seed": 700 + j, "n_samples": 10, "dims": 3, "like_width": 0.05, "kernel_steps": 1, "min_step": ms, "target_efficiency": 0.95,
+               "checkpoint_every": 1}
+        run_cfg(chk, cfg, "floor_bound", lines, keep, all_faults=False)
     check_resume_from_file(chk, r, 8 if quick else 60)
     check_reused_sampler(chk, np.random.default_rng(chk.seed + 1109), 12 if quick else 120)
     st_lines, st_keep = [], []
